@@ -114,15 +114,24 @@ def run_ref(thunk):
             return ("exc", e)
 
 
+CURRENT_OPS: dict = {}  # thread ident -> (label, start time): read by the worker's hang watchdog
+
+
 def run_op(label, thunk, **info):
     """Client boundary: OP_BEGIN before invoking, OP_END after the reply; all gates opened afterwards."""
+    import time
+
     s0 = B.ev("OP_BEGIN", op=label, **info)
+    me = threading.get_ident()
+    CURRENT_OPS[me] = (label, time.monotonic())
     try:
         val = thunk()
     except BaseException as e:  # noqa: BLE001
+        CURRENT_OPS.pop(me, None)
         B.ev("OP_END", op=label, ok=False, exc=type(e).__name__, begin=s0)
         B.close_all()
         return ("exc", e)
+    CURRENT_OPS.pop(me, None)
     B.ev("OP_END", op=label, ok=True, begin=s0)
     B.close_all()
     return ("ok", val)
